@@ -12,6 +12,7 @@
    given), hence trivially without hidden state; the allocator itself is the caller's. *)
 From Coq Require Import List Arith.
 From UP Require Import Spec.Footprint Proofs.FootprintProofs.
+From UP Require Import Base.Chars Model.Uri Model.Parse Model.Mem Model.ParseM Model.OpsM Proofs.OwnershipProofs Proofs.LedgerIndependence.
 Import ListNotations.
 
 (* every schedule of a disciplined program: per-thread views are those of the solo runs, at every
@@ -50,3 +51,35 @@ Proof.
     + rewrite (A 0), (A 2); [reflexivity| |]; [left; reflexivity|right; reflexivity].
     + apply A. exact Hl.
 Qed.
+
+(* ---- the one piece of state the threads do share: the allocator ---------------------------------
+   In the memory tier every operation receives the ledger (the state of the memory manager) and returns
+   it; with a thread-safe manager the ledger a call sees depends on what the other threads did before.
+   The value computed -- return code, error position, every component of the resulting object -- does
+   not: for any two fault-free ledger states it is the same (it is the pure-tier function of the
+   arguments, Props/C12.v).  [mresult_value] / [op_value] forget the block identities, which are the
+   only thing that differs. *)
+Theorem C20_parse_independent_of_allocator_state : forall t s1 s2, nofault s1 -> nofault s2 ->
+  mresult_value (fst (parse_m t s1)) = mresult_value (fst (parse_m t s2)).
+Proof. exact parse_ledger_independent. Qed.
+Print Assumptions C20_parse_independent_of_allocator_state.
+
+Theorem C20_add_base_independent_of_allocator_state : forall compat rel base s1 s2, nofault s1 -> nofault s2 ->
+  op_value (add_base_m compat rel base s1) = op_value (add_base_m compat rel base s2).
+Proof. exact add_base_ledger_independent. Qed.
+Print Assumptions C20_add_base_independent_of_allocator_state.
+
+Theorem C20_remove_base_independent_of_allocator_state : forall dr src base s1 s2, nofault s1 -> nofault s2 ->
+  op_value (remove_base_m dr src base s1) = op_value (remove_base_m dr src base s2).
+Proof. exact remove_base_ledger_independent. Qed.
+Print Assumptions C20_remove_base_independent_of_allocator_state.
+
+Theorem C20_make_owner_independent_of_allocator_state : forall csize m s1 s2, nofault s1 -> nofault s2 -> mwf m ->
+  op_value (make_owner_m csize m s1) = op_value (make_owner_m csize m s2).
+Proof. exact make_owner_ledger_independent. Qed.
+Print Assumptions C20_make_owner_independent_of_allocator_state.
+
+Theorem C20_normalize_independent_of_allocator_state : forall csize mask m s1 s2, nofault s1 -> nofault s2 -> mwf m ->
+  op_value (normalize_m csize mask m s1) = op_value (normalize_m csize mask m s2).
+Proof. exact normalize_ledger_independent. Qed.
+Print Assumptions C20_normalize_independent_of_allocator_state.
